@@ -28,6 +28,7 @@ type c13Op struct {
 
 type C13Plan struct {
 	Real    *RealPlan            `json:"real,omitempty"` // run one unit with the real runner binary instead (realrunner_test.go)
+	View    *C14Plan             `json:"view,omitempty"` // a scheduled history of updates, loads and reports on one unit (c14_test.go): what the daemon reports never goes back
 	Runners []simwork.RunnerPlan `json:"runners"`
 	Ops     []c13Op              `json:"ops"`
 	Shrink  []string             `json:"_shrink"`
@@ -38,6 +39,16 @@ func genC13(seed uint64, tier string) any {
 	p := &C13Plan{Shrink: []string{"ops"}}
 	if r.Bool(0.05) {
 		p.Real = genReal(r)
+		return p
+	}
+	if r.Bool(0.15) {
+		v := genC14(seed^0x5eed, tier).(*C14Plan)
+		v.Real, v.Fresh = nil, false
+		if len(v.Daemon) == 0 {
+			v.Daemon = [][]string{{"load", "peek", "inc", "peek"}, {"basic", "load", "peek"}}
+		}
+		p.View = v
+		p.Shrink = []string{"view.procs", "view.daemon"}
 		return p
 	}
 	for i := 0; i < 12; i++ {
@@ -90,6 +101,10 @@ func runC13(t *testing.T, planAny any, res *simnet.Result) {
 	p := planAny.(*C13Plan)
 	if p.Real != nil {
 		runReal(t, p.Real, "c13", res)
+		return
+	}
+	if p.View != nil {
+		runStatusHistory(t, p.View, "c13", res)
 		return
 	}
 	runDir := simwork.NewRunDir()
